@@ -502,7 +502,7 @@ namespace {
         std::deque< Expect >       expect;
         Own                        own;
         std::vector< std::uint64_t > unsure_lo;     // own procedures whose end the model could not determine: 0x22 tolerated after
-        unsigned                   app_ver_to_send = 0;
+        unsigned                   app_ver_to_send = 0, late_cpr = 0, late_phy = 0;
         bool                       ver_seen = false, unknown_seen = false, old_version_seen = false, enc_req_seen = false;
         unsigned                   offered_acc = 0xff;
         std::set< std::string >    close_causes;
@@ -541,7 +541,7 @@ namespace {
             }
             own = Own();
             unsure_lo.clear();
-            app_ver_to_send = 0;
+            app_ver_to_send = late_cpr = late_phy = 0;
             ver_seen = unknown_seen = old_version_seen = enc_req_seen = false;
             offered_acc     = 0xff;
             close_causes.clear();
@@ -567,7 +567,7 @@ namespace {
 
         // an own procedure ends (as far as the reference can tell)
         auto resolve_own = [&]( bool keep_unsure ) {
-            if ( own.kind >= 0 && own.started && keep_unsure )
+            if ( own.kind >= 0 && keep_unsure )
                 unsure_lo.push_back( own.t_q + T_PRT );
             own = Own();
         };
@@ -699,6 +699,8 @@ namespace {
             case 0x02:
                 labels.insert( "pdu:terminate" );
                 close_causes.insert( "terminate" );
+                if ( o.body[ 0 ] == 0x22 )
+                    close_causes.insert( "terminate-with-0x22" );
                 break;
             case 0x03:
                 labels.insert( "pdu:enc-req" );
@@ -810,6 +812,14 @@ namespace {
                     start_own();
                     continue;
                 }
+                if ( ( op == 0x0F && o.size() == 24 && late_cpr > 0 ) || ( op == 0x16 && o.size() == 3 && late_phy > 0 ) )
+                {
+                    // a request the reference stopped waiting for: it is not tracked, a later 0x22 is tolerated
+                    --( op == 0x0F ? late_cpr : late_phy );
+                    unsure_lo.push_back( 0 );
+                    labels.insert( "own:request-sent-very-late" );
+                    continue;
+                }
                 if ( op == 0x16 && o.size() == 3 && own.kind == APP_PHY && !own.started )
                 {
                     start_own();
@@ -825,12 +835,14 @@ namespace {
                     if ( expect[ idx ].matches( o ) )
                     {
                         expect.erase( expect.begin() + static_cast< long >( idx ) );
-                        for ( std::size_t j = idx; j-- > 0; )
+                        // the optional responses that were skipped did not come (if this LL_VERSION_IND may be the request of the
+                        // application, they may still come)
+                        for ( std::size_t j = idx; j-- > 0 && !own_version_possible; )
                             if ( !expect[ j ].floating )
                                 expect.erase( expect.begin() + static_cast< long >( j ) );
                         matched = true;
                     }
-                    else if ( !expect[ idx ].floating && ( !expect[ idx ].optional || own_version_possible ) )
+                    else if ( !expect[ idx ].floating && !expect[ idx ].optional )
                         break;
                 }
                 if ( matched )
@@ -933,8 +945,9 @@ namespace {
                 {
                     bool ok = false;
                     std::string why = "no procedure of the peripheral was outstanding";
-                    if ( own.kind >= 0 && own.started )
+                    if ( own.kind >= 0 )
                     {
+                        // (a request that is queued, but kept from the air by a blocked transmit path, has its timer running)
                         if ( own.unconstrained || big_burst_of_callbacks )
                             ok = true;
                         else if ( now < own.t_q + T_PRT )
@@ -949,7 +962,7 @@ namespace {
                     for ( auto lo : unsure_lo )
                         if ( now >= lo )
                             ok = true;
-                    if ( !ok && !close_causes.count( "wrong-length" ) )
+                    if ( !ok && !close_causes.count( "wrong-length" ) && !close_causes.count( "terminate-with-0x22" ) )
                         verif::fail( "control.timeout-spurious", verif::cat( "op ", op_index, ": link closed with reason 0x22 (response timeout) at ", now / 1000, " ms: ", why ),
                             "oracle=timeout-spurious" );
                 }
@@ -977,7 +990,15 @@ namespace {
             }
 
             if ( own.kind >= 0 && !own.started && total_events > own.called_at + 12 )
-                resolve_own( false );
+            {
+                // not on the air yet (transmit path blocked, refused later, sent on the signalling channel): stop waiting
+                if ( own.kind == APP_CPR )
+                    ++late_cpr;
+                if ( own.kind == APP_PHY )
+                    ++late_phy;
+                // the peripheral may have queued the request long ago: its response timer may expire 40 s after the call
+                resolve_own( true );
+            }
 
             // the response timeout of an own procedure
             if ( own.kind >= 0 && own.started )
